@@ -90,7 +90,7 @@ def tla_fun(d):
     return s + str(items[-1][1])
 
 
-def write_model(d, name, variant, switches=None, extra_inv=()):
+def write_model(d, name, variant, switches=None, extra_inv=(), liveness=False):
     f = families()[name]
     sw = dict(DEFAULT_SWITCHES)
     sw.update(switches or {})
@@ -116,17 +116,19 @@ def write_model(d, name, variant, switches=None, extra_inv=()):
     cfg += ' defaultInitValue = "div"\n'
     for inv in ("Linearizable", "NoDuplicateKeys", "LocksReleased", "FnCounts") + tuple(extra_inv):
         cfg += "INVARIANT %s\n" % inv
+    if liveness:
+        cfg += "PROPERTY EventuallyDone\n"
     open(os.path.join(d, mod + ".cfg"), "w").write(cfg)
     return mod
 
 
-def run_family(name, variant, switches=None, timeout=1800, workers=None):
+def run_family(name, variant, switches=None, timeout=1800, workers=None, liveness=False):
     """Exhaustive TLC run of one family; returns lib.run_tlc result plus 'violated' (invariant name or 'deadlock' or None)."""
     d = lib.mktemp("verif-clht-")
     import shutil
     for m in ("CLHT", "MapSem"):  # SequencesExt comes from the CommunityModules jar
         shutil.copy(os.path.join(lib.SPECS, m + ".tla"), d)
-    mod = write_model(d, name, variant, switches)
+    mod = write_model(d, name, variant, switches, liveness=liveness)
     r = lib.run_tlc(mod, cfg=None, workers=workers or lib.NCPU, timeout=timeout, workdir=d, staged=True)
     out = r["out"]
     r["violated"] = None
@@ -135,6 +137,8 @@ def run_family(name, variant, switches=None, timeout=1800, workers=None):
         r["violated"] = m.group(1)
     elif "Deadlock reached" in out:
         r["violated"] = "deadlock"
+    elif "Temporal properties were violated" in out:
+        r["violated"] = "liveness"
     elif not r["ok"]:
         r["violated"] = "error"
     return r
